@@ -87,8 +87,10 @@ def run(ctx):
 
     # (ii) order-focused differential run
     nseq = 0
-    for label, rng, n, prof in [("fixed", random.Random(303), 500 if quick else 4000, SAFE), ("seed", ctx.rng, 300 if quick else 4000, SAFE)]:
-        cases = [relgen.make_case(rng, kinds=ORDER_KINDS, max_tr=7, **prof) for _ in range(n)]
+    letcases = relgen.systematic_let_cases(3 if quick else 4, SAFE, sample=(random.Random(33), 200 if quick else 1500))
+    ctx.coverage_extra["systematic_let_boundary_cases"] = len(letcases)
+    for label, rng, n, prof in [("let-boundary", None, 0, SAFE), ("fixed", random.Random(303), 500 if quick else 4000, SAFE), ("seed", ctx.rng, 300 if quick else 4000, SAFE)]:
+        cases = letcases if label == "let-boundary" else [relgen.make_case(rng, kinds=ORDER_KINDS, max_tr=7, **prof) for _ in range(n)]
         res = relcheck.run_cases(cases, "sql.sqlite")
         for c, r in zip(cases, res):
             orig = c
